@@ -126,12 +126,12 @@ end
 )
 end.
 
-Fixpoint gen_compute_file_checksum_loop (fuel_ : nat) (path : bytes) (read_chunksize : Z) (algorithm : bytes) (f : fobj) (checksum : H) {struct fuel_} : option (ores (fobj * H)) :=
+Fixpoint gen_compute_file_checksum_loop (fuel_ : nat) (read_chunksize : Z) (f : fobj) (checksum : H) {struct fuel_} : option (ores (fobj * H)) :=
   match fuel_ with O => None | S fuel__ =>
   match fread f read_chunksize with
   | (f, OOk chunk) => if beq chunk ([]%N : bytes) then Some (OOk (f, checksum)) else (
 let checksum := rt_update rt checksum chunk in
-gen_compute_file_checksum_loop fuel__ path read_chunksize algorithm f checksum)
+gen_compute_file_checksum_loop fuel__ read_chunksize f checksum)
   | (f, OErr e_6) => Some (OErr e_6)
   | (f, OExn x_7) => Some (OExn x_7)
   end end.
@@ -141,7 +141,7 @@ match rt_hash_new rt algorithm with
 match rt_open_rb rt path w with
 | OOk data_3 =>
 let f := fopen data_3 in
-match gen_compute_file_checksum_loop (loop_fuel f) path read_chunksize algorithm f checksum with
+match gen_compute_file_checksum_loop (loop_fuel f) read_chunksize f checksum with
 | None => OExn OtherError
 | Some (OOk (f, checksum)) =>
 match rt_hexdigest rt checksum with
